@@ -51,7 +51,7 @@ from harness import checklib
 from harness import monitors
 from harness.sim import Sim
 
-PROPERTIES = ["C01", "C02", "C03", "C04"]
+PROPERTIES = ["C01", "C02", "C03", "C04", "C06", "C07", "C18"]
 ORDER = 40
 
 CORPUS = os.path.join(checklib.VERIF, "corpus", "core_trace")
@@ -1580,8 +1580,8 @@ def _work(args):
     out = []
     batch = []
     for it in items:
-        if time.time() > deadline:
-            break
+        if time.time() > deadline and it[0] != "scenario":
+            continue          # the directed schedules (which guarantee the coverage floors) always run
         try:
             batch.append((it, build_item(repo, it, base_seed, n_events)))
         except Exception:
@@ -1686,11 +1686,12 @@ FLOORS_FLAGS = {"leader-change": 3, "truncation": 1, "chunked": 1, "snapshot-ins
 def plan(ctx):
     quick = ctx.tier == "quick"
     n_events = 400 if quick else 1200
-    items = [("corpus", f) for f in corpus_files()]
+    items = []
     reps = 2 if quick else 12
-    for (name, _, _, _) in SCENARIOS:
-        for k in range(reps):
+    for k in range(reps):
+        for (name, _, _, _) in SCENARIOS:
             items.append(("scenario", name, k))
+    items += [("corpus", f) for f in corpus_files()]
     for k in range(120 if quick else 2400):
         items.append(("random", k))
     return items, n_events
